@@ -7,13 +7,35 @@ package sniffing
 // C06: the TLS ClientHello walk never reads outside the bytes it was given, for every byte string.
 // (All obligations are the generated index/slice checks plus the preconditions of the Locator calls.)
 
+// record layer: "not applicable" only for a buffer shorter than the record header or not a TLS handshake
+// record; "need more" exactly when the announced record length exceeds what is buffered
 //@ func (*Sniffer).SniffTls
 //@   requires s.buf != nil
 //@   modifies *
+//@   let bb() = s.buf.Bytes()
+//@   at return 1 assert s.buf.Len() < 5
+//@   at return 2 assert bb()[0] != ContentType_HandShake || bb()[1] != 3
+//@   at return 3 assert len(bb()) - 5 < bb()[3] * 256 + bb()[4]
 
+// ClientHello walk: each "not applicable" answer is given exactly for the structural reason at that step
+// (too short for the next variable-length field, wrong handshake type or version), and the extension
+// block handed to findSniExtension is the one the length fields delimit. Returns are counted in source order.
 //@ func extractSniFromTls
 //@   requires search != nil
 //@   modifies *
+//@   let lb(p int) = quicutils.locByte(search, p)
+//@   let b1() = 41 + lb(38)
+//@   let b2() = b1() + lb(b1() - 2) * 256 + lb(b1() - 1) + 1
+//@   let b3() = b2() + lb(b2() - 1) + 2
+//@   let b4() = b3() + lb(b3() - 2) * 256 + lb(b3() - 1)
+//@   at return 1 assert search.Len() < 39
+//@   at return 3 assert lb(0) != HandShakeType_Hello
+//@   at return 4 assert lb(4) != 3 || lb(5) < 1 || lb(5) > 3
+//@   at return 6 assert search.Len() < b1()
+//@   at return 8 assert search.Len() < b2()
+//@   at return 10 assert search.Len() < b3()
+//@   at return 12 assert search.Len() < b4()
+//@   at call Slice#1 assert a1 == b3() && a2 == b4() && b4() <= search.Len()
 
 // Functional part (the walk over the server_name list): every position at which an entry header is read
 // is an entry boundary - reachable from the start of the list by adding 3 + the 16-bit length found at
@@ -28,6 +50,15 @@ package sniffing
 //@   assume forall p int {nxt(p)} :: nxt(p) == p + 3 + len16(p)
 //@   assume forall s int {reach(s, s)} :: reach(s, s)
 //@   assume forall s int, p int {reach(s, nxt(p))} :: reach(s, p) ==> reach(s, nxt(p))
+//@   let typ16(p int) = quicutils.locByte(search, p) * 256 + quicutils.locByte(search, p + 1)
+//@   let ext16(p int) = quicutils.locByte(search, p + 2) * 256 + quicutils.locByte(search, p + 3)
+//@   let sni16(p int) = quicutils.locByte(search, p + 4) * 256 + quicutils.locByte(search, p + 5)
+// completeness: "not applicable" is answered only for a list that really is malformed at the extension
+// being looked at (returns counted in source order)
+//@   at return 3 assert i + 4 + ext16(i) > search.Len()
+//@   at return 4 assert typ16(i) == TlsExtension_ServerName && ext16(i) < 2
+//@   at return 6 assert typ16(i) == TlsExtension_ServerName && ext16(i) < sni16(i) + 2
+//@   at return 8 assert typ16(i) == TlsExtension_ServerName && reach(i + 6, j) && j + 3 + len16(j) > i + 4 + ext16(i)
 //@   at call Range#3 assert reach(i + 6, j) && nxt(j) == j + 3 + len16(j)
 //@   at call Range#4 assert reach(i + 6, j) && quicutils.locByte(search, j) == 0 && indicatorLen == len16(j)
 //@   loop 1
@@ -60,3 +91,17 @@ package sniffing
 //@   trustframe
 //@   modifies s.quicPlaintexts, elems(cryptos), elems(s.quicPlaintexts)
 //@   ensures forall k int {buf[k]} :: 0 <= k && k < len(buf) ==> buf[k] == old(buf[k])
+
+// Replay of the sniffed prefix: whatever was buffered while sniffing is handed to the reader before
+// anything else - also when sniffing ended with a read error - and the underlying stream is read only
+// once the buffer is empty. (Returns counted in source order; the buffer is the pool's bytes.Buffer.)
+//@ func (*Sniffer).Read
+//@   nonilcheck
+//@   dyncalls noeffect
+//@   modifies *
+//@   at call Buffer).Read#1 assert a1.$base == p.$base && a1.$off == p.$off && len(a1) == len(p)
+//@   at call Buffer).Read#2 assert a1.$base == p.$base && a1.$off == p.$off && len(a1) == len(p)
+//@   at return 1 assert calls("Buffer).Read") == 1
+//@   at return 2 assert calls("Buffer).Read") == 1
+//@   at return 3 assert calls("Buffer).Read") == 0 && n == 0
+//@   at return 4 assert calls("Buffer).Read") == 0
